@@ -9,6 +9,13 @@
   `tree_snapshot`, `observe`, `normalise_changes`.
 * workload: `gen_ops(rng, model, n, weights)` (pure, model guided) and
   `apply_op(tree, model, op)`.
+* `MTree.classify(op)` -> "ok" | "error" (must be refused, nothing changes) | "skip" (the
+  model declines: outcome decided by conflict resolution / heuristics, or a GUARDS entry).
+  `GUARDS` lists states/operations that hit defects already reported; `fail()` gives
+  failures inside such a territory (guard lifted) the signature
+  [property, "known-defect", guard]; `lifted_guards(prop)` reads known_findings.json.
+* determinism helpers: `relativise_log` (scratch paths and random name parts out of the
+  event log), `settle_randomness`, `quiet`.
 
 Conventions: paths are tree-relative, "/"-separated, "" is the root.  File contents are
 `content(n)`: the n of every write in a run is unique, hence every rewrite changes the
@@ -61,7 +68,12 @@ def ignored(p):
 
 
 class Unmodelled(Exception):
-    """The model declines to predict this operation in this state."""
+    """The model declines to predict this operation in this state.  `guard`: the entry of
+    GUARDS that is the reason (None: the outcome is simply not modelled)."""
+
+    def __init__(self, guard=None):
+        Exception.__init__(self, guard)
+        self.guard = guard
 
 
 # --------------------------------------------------------------------------------------
@@ -358,14 +370,28 @@ class MTree:
     # classify(op) -> "ok" | "error" | "skip";  apply(op) mutates (only for "ok").
 
     def classify(self, op):
+        return self.classify_ex(op)[0]
+
+    def classify_ex(self, op):
+        """(classification, guard that caused a 'skip' or None)."""
         try:
             m = self.copy()
             r = m._do(op)
-            if r == "ok" and m.guarded_state():
-                return "skip"
-            return r
-        except Unmodelled:
-            return "skip"
+            if r == "ok":
+                g = m.guarded_state()
+                if g:
+                    return "skip", g
+            return r, None
+        except Unmodelled as e:
+            return "skip", e.guard
+
+    def territory(self, op):
+        """Name of the reported defect (GUARDS entry) that `op` runs into from this state,
+        or None: what the same model with every guard on would refuse to predict."""
+        m = self.copy()
+        m.guards = set(GUARDS)
+        r, g = m.classify_ex(op)
+        return g if r == "skip" else None
 
     def dir_replaced(self):
         """bzr: some versioned directory with versioned children is a file / symlink now."""
@@ -504,7 +530,7 @@ class MTree:
         par = self.inv.get(parent(p))
         if par is None:
             if "bzr_add_under_removed_parent" in self.guards and parent(p) in self.basis:
-                raise Unmodelled()
+                raise Unmodelled("bzr_add_under_removed_parent")
             return "error"  # parent not versioned
         if par[1] != DIR:
             raise Unmodelled()
@@ -719,7 +745,7 @@ class MTree:
 
     def _check_filter_paths(self, sel):
         if len(self.usable_filter(sel)) != len(sel):
-            raise Unmodelled()
+            raise Unmodelled("bzr_enotdir_filter")
 
     def _selection_closed(self, chosen, bids, wids):
         """A path filter selects more than the entries below the given paths: whatever else
@@ -727,7 +753,7 @@ class MTree:
         selected entry.  The model only predicts selections that need none of that."""
         if "bzr_filter_duplicates" in self.guards:
             if any(f in bids and f in wids and bids[f] != wids[f] for f in chosen):
-                raise Unmodelled()
+                raise Unmodelled("bzr_filter_duplicates")
         related = [bids[f] for f in chosen if f in bids] + [wids[f] for f in chosen if f in wids]
         for fid in (set(bids) | set(wids)) - chosen:
             for q in ([bids[fid]] if fid in bids else []) + ([wids[fid]] if fid in wids else []):
@@ -782,13 +808,13 @@ class MTree:
                         raise Unmodelled()  # a selected path turns an unselected file of the basis into a directory
             if "git_commit_path_reuse" in self.guards:
                 if added and modified:
-                    raise Unmodelled()
+                    raise Unmodelled("git_commit_path_reuse")
                 basis_dirs = {a for q in self.basis for a in ancestors(q) if a}
                 if any(q in basis_dirs for q in added):
-                    raise Unmodelled()  # directory of the basis replaced by a file
+                    raise Unmodelled("git_commit_path_reuse")  # directory of the basis replaced by a file
                 for q in self.inv:
                     if q in self.basis and self.dkind(q) not in (None, self.basis[q][1]):
-                        raise Unmodelled()
+                        raise Unmodelled("git_commit_path_reuse")
             new = {}
             for q, e in self.basis.items():
                 if sel is not None and not any(inside(s, q) for s in sel):
@@ -926,7 +952,7 @@ class MTree:
             if q not in self.inv and "git_revert_untracked_dir" in self.guards:
                 for a in ancestors(q):
                     if a and self.dkind(a) == DIR and not self.inv_below(a):
-                        raise Unmodelled()
+                        raise Unmodelled("git_revert_untracked_dir")
             if node is not None and node[0] == DIR:
                 raise Unmodelled()
             for a in ancestors(q):
@@ -948,7 +974,7 @@ class MTree:
 
     def _revert_bzr(self, sel):
         if "bzr_dir_replaced" in self.guards and self.dir_replaced():
-            raise Unmodelled()
+            raise Unmodelled("bzr_dir_replaced")
         bids = self.basis_ids()
         wids = {e[0]: q for q, e in self.inv.items()}
         if sel is not None:
@@ -1028,7 +1054,7 @@ class MTree:
             if pn is None:
                 raise Unmodelled()  # parent is not part of the working tree any more
             if "bzr_revert_removed_parent" in self.guards and pn.get("new") and not n.get("new"):
-                raise Unmodelled()
+                raise Unmodelled("bzr_revert_removed_parent")
             detach(n)
             name = posixpath.basename(bp)
             if name in pn["kids"]:
@@ -1105,6 +1131,32 @@ class MTree:
 
     def _op_lockcycle(self, op):
         return "ok"
+
+
+def fail(sim, prop, tag, rest, detail, territory=None):
+    """sim.fail with a signature that names the reported defect (GUARDS entry) whose
+    territory the run has entered with that guard lifted, if any: such failures are matched
+    against known_findings.json ([prop, "known-defect", guard]); everything else keeps the
+    oracle's own signature."""
+    prop = sim.notes.get("prop", prop)
+    t = territory or sim.notes.get("territory")
+    if t:
+        sim.fail(tag, [prop, "known-defect", t], "[%s, in the territory of %s] %s" % (tag, t, detail))
+    sim.fail(tag, [prop, tag] + list(rest), detail)
+
+
+def lifted_guards(prop):
+    """Guards whose defect has an open entry for `prop` in known_findings.json (signature
+    [prop, "known-defect", guard, ...]): a share of the runs lifts them, so that the finding
+    keeps being reproduced and reported as KNOWN-FINDING."""
+    from simkit import findings
+
+    out = set()
+    for e in findings.load(prop):
+        s = e.get("signature") or []
+        if e.get("status") == "open" and len(s) >= 3 and s[0] == prop and s[1] == "known-defect" and s[2] in GUARDS:
+            out.add(s[2])
+    return sorted(out)
 
 
 STATE_CHANGING = {"write", "mkdir_disk", "symlink", "kindchange", "rm_disk", "chmod", "mkdir", "add", "smart_add", "remove", "rename", "move", "commit", "revert"}
